@@ -351,8 +351,12 @@ EvalCall(f, args, c) ==
                           ELSE IF HasAstral(a1) \/ HasUObj(a1) \/ a1.t = "nas" THEN Unspec
                           ELSE LET bytes == P!PrintValue(a1, "one-line", FALSE) IN Str([i \in 1..Len(bytes) |-> bytes[i]])
     [] f = "parse" -> IF IsU(a1) THEN Unspec ELSE IF a1.t # "str" THEN Nothing
-                      ELSE LET p == R!StrictParse(Utf8Enc(a1.c)) IN
-                           IF p.ok /\ PlainNumbers(p.v) /\ R!DistinctKeys(p.v) THEN p.v ELSE Unspec
+                      ELSE LET bytes == Utf8Enc(a1.c)
+                               p == R!StrictParse(bytes)
+                               \* one complete JSON value, a blank, and then something else: not "a JSON value" whatever the reader tolerates
+                               first == R!PValue(bytes, R!SkipWs(bytes, 1))
+                               trailing == first.ok /\ first.p <= Len(bytes) /\ bytes[first.p] \in {32, 9, 10, 13} /\ R!SkipWs(bytes, first.p) <= Len(bytes) IN
+                           IF p.ok /\ PlainNumbers(p.v) /\ R!DistinctKeys(p.v) THEN p.v ELSE IF trailing THEN Nothing ELSE Unspec
     [] f \in {"parse_time", "parse_time_with_zone"} ->
          IF IsU(a1) \/ IsU(a2) THEN Unspec ELSE IF a1.t = "str" /\ a2.t = "str" THEN Unspec ELSE Nothing
     \* regular expressions: the documentation refers to the regex crate; Regex.tla gives the fragment a meaning (leftmost-first), the AST of a
